@@ -109,6 +109,87 @@ func firstDiff(a, b string) string {
 	return fmt.Sprintf("...%s <<<>>> %s | vs | %s", a[lo:i], a[i:hi(a)], b[i:hi(b)])
 }
 
+// ---------------------------------------------------------------------------
+// print/printf argument shapes, enumerated: every place where a '>' comparison
+// or a 'cmd | getline' can sit in an argument (bare, in each position of ?: and
+// of nested ?:, under unary/binary/assignment/in operators, inside
+// parentheses, subscripts, calls and $), for 1-3 arguments, with and without
+// a redirection; rendered minimally and fully parenthesised.
+
+func hazardNodes() []*awk.Node {
+	return []*awk.Node{
+		awk.BinN(awk.VarN("a"), ">", awk.VarN("b")),
+		awk.BinN(awk.VarN("a"), "<", awk.VarN("b")),
+		awk.GetlineN(awk.StrN("cmd"), nil, nil),
+		awk.GetlineN(awk.StrN("cmd"), awk.VarN("v"), nil),
+		awk.GetlineN(nil, nil, awk.StrN("file")),
+	}
+}
+
+func shapesOf(hz func() *awk.Node) []*awk.Node {
+	v := func(n string) *awk.Node { return awk.VarN(n) }
+	return []*awk.Node{
+		hz(),
+		awk.CondN(hz(), v("p"), v("q")), awk.CondN(v("c"), hz(), v("q")), awk.CondN(v("c"), v("p"), hz()),
+		awk.CondN(v("c"), awk.CondN(v("d"), hz(), v("q")), v("r")), awk.CondN(v("c"), v("p"), awk.CondN(v("d"), hz(), v("q"))),
+		awk.CondN(v("c"), awk.CondN(v("d"), v("p"), hz()), v("r")), awk.CondN(awk.CondN(v("c"), hz(), v("p")), v("q"), v("r")),
+		awk.UnaryN("-", hz()), awk.UnaryN("!", hz()),
+		awk.BinN(v("x"), "+", hz()), awk.BinN(hz(), "+", v("x")), awk.BinN(v("x"), " ", hz()), awk.BinN(hz(), "&&", v("x")), awk.BinN(v("x"), "||", hz()), awk.BinN(v("x"), "==", hz()), awk.BinN(v("x"), "~", hz()),
+		awk.AssignN(v("x"), "=", hz()), awk.AssignN(v("x"), "+=", hz()), awk.AssignN(v("x"), "=", awk.CondN(v("c"), hz(), v("q"))),
+		awk.InN("arr", hz()), awk.InN("arr", hz(), v("k")),
+		awk.GroupN(hz()), awk.GroupN(awk.CondN(v("c"), hz(), v("q"))), awk.GroupN(awk.GroupN(hz())),
+		awk.IndexN("arr", hz()), awk.UserCallN("f", hz()), awk.CallN("length", hz()), awk.FieldN(hz()), awk.CallN("substr", v("s"), hz()),
+	}
+}
+
+func enumPrintShapes(thorough bool, yield func(Case) bool) {
+	nh := len(hazardNodes())
+	for hi := 0; hi < nh; hi++ {
+		hz := func() *awk.Node { return hazardNodes()[hi] }
+		ns := len(shapesOf(hz))
+		for si := 0; si < ns; si++ {
+			for layout := 0; layout < 4; layout++ {
+				for kind := 0; kind < 2; kind++ {
+					for redir := 0; redir < 3; redir++ {
+						for _, mode := range []awk.Mode{awk.Minimal, awk.Full} {
+							e := shapesOf(hz)[si]
+							var args []*awk.Node
+							switch layout {
+							case 0:
+								args = []*awk.Node{e}
+							case 1:
+								args = []*awk.Node{e, awk.VarN("y")}
+							case 2:
+								args = []*awk.Node{awk.VarN("y"), e}
+							default:
+								args = []*awk.Node{awk.VarN("y"), e, awk.VarN("z")}
+							}
+							op, dest := "", (*awk.Node)(nil)
+							switch redir {
+							case 1:
+								op, dest = ">", awk.StrN("out")
+							case 2:
+								op, dest = "|", awk.StrN("sort")
+							}
+							var st *awk.Node
+							if kind == 0 {
+								st = awk.PrintN(args, op, dest)
+							} else {
+								st = awk.PrintfN(append([]*awk.Node{awk.StrN("%s")}, args...), op, dest)
+							}
+							prog := &awk.Program{Begin: [][]*awk.Node{{st}}, Funcs: []*awk.Func{{Name: "f", Params: []string{"p"}, Body: []*awk.Node{awk.ReturnN(awk.VarN("p"))}}}}
+							if !yield(Case{Src: h.Str(awk.RenderProgram(prog, mode))}) {
+								return
+							}
+						}
+					}
+				}
+			}
+		}
+	}
+}
+
 func init() {
 	h.Prop("print_reparse_roundtrip", 80000, 1500000, genCase, run)
+	h.Enum("print_argument_shapes", enumPrintShapes, run)
 }
